@@ -96,10 +96,11 @@ class Check:
             path = os.path.join(rdir, "%s_%s.ndjson" % (self.prop, h))
             with open(path, "w") as f:
                 for g in self.globals: f.write(g + "\n")
+                for cb in m.get("context") or []: f.write(cb + "\n")       # the behaviours that built the decoy worlds
                 b = m.get("behaviour")
                 if b is not None: f.write((b if isinstance(b, str) else json.dumps(b)) + "\n")
             with open(path + ".why", "w") as f:
-                f.write(json.dumps({k: v for k, v in m.items() if k != "behaviour"}) + "\n")
+                f.write(json.dumps({k: v for k, v in m.items() if k not in ("behaviour", "context")}) + "\n")
             if shown < 12:
                 print("VIOLATION property=%s replay=%s" % (self.prop, path))
                 print("  class labels=%s check=%s op=%s step=%s at=%s got=%s want=%s (%d mismatches in this class)\n  %s"
